@@ -33,5 +33,6 @@ for p in ['C03','C04','C05','C07','C09','C10','C15','C16','C18']:
           'check_run':{},
           'caught_initially':key not in initial_miss}
         if key in notes: meta['strengthening_or_note']=notes[key]
+        if key=='C04-J': meta['check_property']='C18'
         json.dump(meta,open(dst+'/meta.json','w'),indent=1)
         print(key, meta['confirmed_by_me'])
